@@ -160,12 +160,16 @@ class Pipeline(Redis):
         if srv.down:
             raise ConnectionError("server is down")
         out = []
-        for args in stack:
-            try:
-                out.append(_reply(args[0], srv.execute(*args)))
-            except ResponseError as e:
-                if raise_on_error: raise
-                out.append(e)
+        srv.begin()            # MULTI ... EXEC: one cycle of the server
+        try:
+            for args in stack:
+                try:
+                    out.append(_reply(args[0], srv.execute(*args)))
+                except ResponseError as e:
+                    if raise_on_error: raise
+                    out.append(e)
+        finally:
+            srv.end()
         return out
 
 
@@ -173,6 +177,7 @@ class PubSub:
     """the dedicated connection cashews uses for CLIENT TRACKING ... REDIRECT + the invalidation channel"""
 
     def __init__(self, connection_pool):
+        self.pool = connection_pool
         self.server = connection_pool.server
         self.queue, self.replies = [], []
         self.event = _aio.Event()
